@@ -98,6 +98,41 @@ def run(tier, seed):
         if t:
             case["blocks"] = blks
             run.fail(case, "block_reader does not tile the file: " + t, kind="oracle")
+    # ---------------- (i-a2) one schema OBJECT, edited in place between two files (the next version of the schema): the header
+    # of the second file must announce the schema its blocks were written with
+    for c in cases[:scale(tier, 80)]:
+        s0 = c["schema"]
+        if not (isinstance(s0, dict) and s0.get("type") == "record" and c["records"]):
+            continue
+        S = json.loads(json.dumps(s0))
+        edit = rnd.choice(["append-field", "append-field", "prepend-field", "drop-doc"])
+        case = {"schema": s0, "n_records": len(c["records"]), "codec": c["codec"], "edit": edit, "tags": ["same-object-edited"]}
+        try:
+            f1 = io.BytesIO()
+            fastavro.writer(f1, S, c["records"], codec=c["codec"])
+            if edit == "append-field":
+                S["fields"].append({"name": "zz_version", "type": "long", "default": 7})
+            elif edit == "prepend-field":
+                S["fields"].insert(0, {"name": "zz_tag", "type": "string", "default": "t"})
+            else:
+                S["doc"] = "second version"
+            S2 = json.loads(json.dumps(S))
+            f2 = io.BytesIO()
+            fastavro.writer(f2, S, c["records"], codec=c["codec"])
+            want = io.BytesIO()
+            fastavro.writer(want, S2, c["records"], codec=c["codec"], sync_marker=spec_parse(f2.getvalue())["sync"])
+        except Exception:
+            continue
+        run.count(case, True, ["own-file:same-object-edited"])
+        p2, pw = spec_parse(f2.getvalue()), spec_parse(want.getvalue())
+        h2 = json.loads(dict(p2["meta"])["avro.schema"].decode())
+        hw = json.loads(dict(pw["meta"])["avro.schema"].decode())
+        if h2 != hw:
+            case["header_schema"], case["expected_header_schema"] = h2, hw
+            run.fail(case, "the header of a file written with a schema object that was edited in place after an earlier file "
+                           "announces another schema than a fresh copy of the edited schema gives", kind="oracle")
+        elif [b["comp"] for b in p2["blocks"]] != [b["comp"] for b in pw["blocks"]]:
+            run.fail(case, "the blocks of a file written with an edited schema object differ from those written with a fresh copy", kind="oracle")
     # ---------------- (i-b) a file that was appended to must still have the prescribed layout
     for c in cases[:scale(tier, 60)]:
         if not c["records"]:
